@@ -219,6 +219,25 @@ class Tlc:
                          env_extra=e, timeout=timeout)
 
 
+def apalache(module_path, args, timeout=900):
+    """Run apalache-mc check on a typed module; returns (outcome, seconds) with outcome in NoError / Error / timeout / unavailable."""
+    import tempfile
+    out = tempfile.mkdtemp(prefix="apa_", dir=os.path.join(VERIF, "work"))
+    t0 = time.time()
+    try:
+        p = subprocess.run(["apalache-mc", "check"] + args + [f"--out-dir={out}", os.path.basename(module_path)], cwd=os.path.dirname(module_path),
+                           stdout=subprocess.PIPE, stderr=subprocess.STDOUT, text=True, timeout=timeout)
+        m = re.search(r"The outcome is: (\w+)", p.stdout)
+        outcome = m.group(1) if m else ("unavailable" if p.returncode != 0 else "unknown")
+    except subprocess.TimeoutExpired:
+        outcome = "timeout"
+    except FileNotFoundError:
+        outcome = "unavailable"
+    finally:
+        shutil.rmtree(out, ignore_errors=True)
+    return outcome, round(time.time() - t0, 1)
+
+
 def load_known():
     p = os.path.join(VERIF, "known_findings.json")
     if not os.path.exists(p):
